@@ -1,6 +1,7 @@
 """Engine A rules over the generator's quote! templates (crate ts_rs_macros): reference/dependency
 pairing, selector agreement, payload routing, optional-marker guard, property-name quoting,
 un-raw'ed identifiers, quoted sinks, generic-parameter emitters, naming precedence, doc handling."""
+import json
 import re
 
 from vlib.common import Result
@@ -1459,7 +1460,7 @@ def named_composition_rule(syn, prop, rule="C14.R7"):
             return "object&flattened"
         if b == "quote!(#flattened)":
             return "flattened"
-        if "starts_with('(')" in b and "#flattened" in b:
+        if ("starts_with('(')" in b or "strip_prefix('(')" in b) and "#flattened" in b:
             return "flattened-unparenthesised"
         return "?" + b[:40]
 
@@ -1538,4 +1539,264 @@ def output_path_rule(syn, prop, rule="C11.R4"):
     if not ok:
         r.fail(prop, "output-path-export_to", "export_to must yield `<dir>/<name>.ts` exactly when it ends in `/` and the path verbatim otherwise (templates %s)" % lits, fn["file"], some["line"])
     r.floor = 2
+    return r
+
+
+def optional_table_rule(syn, prop, rule="C02.R6"):
+    r = Result(rule, "optional-field table of named::format_field: a field-level `optional` wins and carries the compile-time IsOption check; a struct-level `optional_fields` emits `?` only under `IS_OPTION`; otherwise no marker; and the field's type is replaced by `OptionInnerType` exactly when the marker is emitted without `nullable`")
+    fn = syn.fn("types::named::format_field", "named.rs")
+    if fn is None:
+        r.fail(prop, "anchor-missing format_field", "not found")
+        return r
+    tab = [e for e in S.events(fn, "match") if S.squash(e["scrut"]) == "(struct_optional,field_attr.optional)"]
+    if not tab:
+        r.fail(prop, "anchor-missing optional table", "no `match (struct_optional, field_attr.optional)`", fn["file"], fn["line"])
+        return r
+    e = tab[0]
+    def cls(p):
+        p = S.squash(p)
+        if p.startswith("Optional::Optional"):
+            return "opt", ("nullable" in p)
+        if p.startswith("Optional::NotOptional"):
+            return "not", False
+        return "any", False
+
+    def body_kind(a):
+        body = S.squash(a["body"])
+        kind = "IsOption-check" if "IsOption" in body and '"?"' in body else "IS_OPTION-test" if "IS_OPTION" in body and '"?"' in body else "none" if 'quote!("")' in body else "?"
+        nullable = "bound" if re.search(r",nullable,?\)$", body) else "true" if body.endswith(",true)") else "false" if body.endswith(",false)") else "?"
+        return kind, nullable
+
+    want = {("opt", "opt"): ("IsOption-check", "field"), ("not", "opt"): ("IsOption-check", "field"),
+            ("opt", "not"): ("IS_OPTION-test", "struct"), ("not", "not"): ("none", "true")}
+    bad = []
+    cells = {}
+    for cell, exp in sorted(want.items()):
+        got = None
+        for a in e["arms"]:
+            if a.get("guard"):
+                got = ("guarded", "?")
+                break
+            for alt in S.split_top(a["pat"], "|"):
+                el = S.tuple_elems(alt)
+                if len(el) == 1 and cls(el[0])[0] == "any":
+                    el = ["_", "_"]
+                if len(el) != 2:
+                    continue
+                cs = [cls(x) for x in el]
+                if all(c[0] in ("any", want_c) for c, want_c in zip(cs, cell)):
+                    kind, nul = body_kind(a)
+                    if nul == "bound":
+                        src = [n for n, c in zip(("struct", "field"), cs) if c[1]]
+                        nul = src[0] if len(src) == 1 else "ambiguous"
+                    got = (kind, nul)
+                    break
+            if got:
+                break
+        cells["struct=%s,field=%s" % cell] = got
+        if got != exp:
+            bad.append((cell, got, exp))
+    r.inst(fn=fn["qual"], cells={k: list(v) if v else None for k, v in cells.items()}, ok=not bad)
+    for cell, got, exp in bad:
+        r.fail(prop, "optional-table format_field struct=%s field=%s" % cell,
+               "for (struct optional_fields=%s, field optional=%s) the table yields marker/nullable %s, expected %s (field-level wins with the IsOption check; struct-level is conditional on IS_OPTION; default has no marker and keeps `| null`)" % (cell[0], cell[1], got, exp),
+               fn["file"], e["line"])
+    # type replacement
+    lets = [x for x in S.events(fn, "let") if S.squash(x["pat"]) == "ty" and S.squash(x["init"]).startswith("ifnullable")]
+    ok2 = bool(lets) and S.squash(lets[0]["init"]).startswith("ifnullable{ty}else{parse_quote!{<#tyas#crate_rename::TS>::OptionInnerType}}")
+    r.inst(fn=fn["qual"], type_selection=(lets[0]["init"][:90] if lets else None), ok=ok2)
+    if not ok2:
+        r.fail(prop, "optional-type-selection format_field", "the field type must stay `ty` when nullable and become <ty as TS>::OptionInnerType otherwise", fn["file"], fn["line"])
+    r.floor = 2
+    return r
+
+
+def export_test_rule(syn, prop, rule="C11.R5"):
+    r = Result(rule, "the generated `#[test] fn export_bindings_*` calls export_all() (type plus dependencies) on the item instantiated with Dummy for every non-concrete type parameter and fails loudly on an export error")
+    fn = syn.fn("DerivedTS::generate_export_test", "macros/src/lib.rs")
+    if fn is None:
+        r.fail(prop, "anchor-missing generate_export_test", "not found")
+        return r
+    main = [e for e in templates(fn) if "export_all" in S.flat(e["tokens"])]
+    ok = False
+    if main:
+        txt = " ".join(S.flat(main[0]["tokens"]))
+        ok = "# [ cfg ( test ) ]" in txt and "# [ test ]" in txt and "# ty :: export_all ( ) . expect (" in txt
+    tys = [e for e in templates(fn) if any(c["k"] == "let" and S.squash(c["pat"]) == "ty" for c in e["ctx"])]
+    ok_ty = bool(tys) and "< # rust_ty < # ( # generic_params ) , * > as # crate_rename :: TS >" in " ".join(S.flat(tys[0]["tokens"]))
+    dummy = any("# crate_rename :: Dummy" in " ".join(S.flat(e["tokens"])) and any(c["k"] == "match" and S.squash(c["pat"]) == "None" for c in e["ctx"]) for e in templates(fn))
+    r.inst(fn=fn["qual"], calls_export_all=ok, erased_instantiation=ok_ty, dummy_for_generic_params=dummy)
+    if not (ok and ok_ty and dummy):
+        r.fail(prop, "export-test-shape generate_export_test", "the generated export test does not call `<Item<Dummy,..> as TS>::export_all().expect(..)`", fn["file"], fn["line"])
+    r.floor = 1
+    return r
+
+
+def type_walker_rule(syn, prop, rule, qual, file_suffix, leaf, leaf_test, desc):
+    """A recursive walker over syn::Type must visit every type constructor that a field type or an
+    `as` type is built from: each constructor is matched by an arm that recurses, the path arm
+    descends into angle-bracketed arguments, and the leaf arm does the walker's job."""
+    r = Result(rule, desc)
+    fn = syn.fn(qual, file_suffix)
+    if fn is None:
+        r.fail(prop, "anchor-missing " + qual, "walker not found")
+        return r
+    name = qual.split("::")[-1]
+    ms = [e for e in S.events(fn, "match") if S.squash(e["scrut"]) == "ty"]
+    if not ms:
+        r.fail(prop, "anchor-missing %s match" % name, "no `match ty`", fn["file"], fn["line"])
+        return r
+    m = ms[0]
+    arms = {}
+    for a in m["arms"]:
+        for alt in S.split_top(a["pat"], "|"):
+            mm = re.match(r"\s*Type\s*::\s*(\w+)", alt)
+            if mm:
+                arms.setdefault(mm.group(1), []).append((a, alt))
+
+    def args_descent(body, helpers):
+        # the path arm reaches the generic arguments either inline or through a helper; somewhere on
+        # that route a `GenericArgument::Type(..)` pattern must lead back into the walker
+        scopes = [fn] + [hf for hf in (syn.fn(h, file_suffix) for h in set(helpers) if h != name) if hf]
+        rec = False
+        for sc in scopes:
+            for e in sc["events"]:
+                if e["kind"] == "match":
+                    for a2 in e["arms"]:
+                        if re.match(r"(G|GenericArgument)::Type\(", S.squash(a2["pat"])) and name + "(" in S.squash(a2["body"]):
+                            rec = True
+                if e["kind"] == "if" and re.search(r"let(G|GenericArgument)::Type\(", S.squash(e.get("cond", ""))):
+                    rec = rec or any(c["kind"] == "call" and name in S.squash(json.dumps({k: v for k, v in c.items() if k != "ctx"}))
+                                     and any(x.get("id") == e["id"] for x in c["ctx"]) for c in sc["events"])
+        return rec and "AngleBracketed" in "".join(S.squash(json.dumps(sc["events"])) for sc in scopes)
+
+    for ctor in ("Array", "Group", "Paren", "Reference", "Slice", "Tuple", "Path", "Path/qself"):
+        ents = arms.get(ctor.split("/")[0], [])
+        rec = False
+        shown = None
+        for a, alt in ents:
+            body = S.squash(a["body"])
+            pat = S.squash(alt)
+            helpers = re.findall(r"\b(%s\w*)\(" % name, body)
+            if not helpers:
+                continue
+            if ctor == "Path":
+                if "qself:Some" in pat:
+                    continue
+                ok = args_descent(body, helpers)
+            elif ctor == "Path/qself":
+                # `<T as Trait>::Assoc`, which is also how the derive itself spells `<F as TS>::OptionInnerType`
+                ok = "qself" in pat and "qself:None" not in pat and "qself" in body.replace("QSelf", "")
+                ok = ok or ("qself:Some(" in pat and re.search(r"%s\([^;]*\b(qself|ty)\b" % name, body) is not None)
+            else:
+                ok = True
+            if ok:
+                rec, shown = True, alt
+                break
+        r.inst(fn=fn["qual"], constructor=ctor, arm=(shown[:70] if shown else (ents[0][1][:70] if ents else None)), recurses=rec)
+        if not rec:
+            r.fail(prop, "walker-coverage %s Type::%s" % (name, ctor),
+                   "%s does not descend into Type::%s, so a type nested in that constructor is not %s" % (name, ctor, leaf),
+                   fn["file"], m["line"])
+    ok_leaf = leaf_test(fn, arms)
+    r.inst(fn=fn["qual"], leaf=leaf, ok=ok_leaf)
+    if not ok_leaf:
+        r.fail(prop, "walker-leaf %s" % name, "%s: the leaf action (%s) is not performed" % (name, leaf), fn["file"], m["line"])
+    r.floor = 9
+    return r
+
+
+def _infer_leaf(fn, arms):
+    return any(S.squash(a["body"]).rstrip(",") == "*ty=with.clone()" for a, _ in arms.get("Infer", []))
+
+
+def _param_leaf(fn, arms):
+    for a, _ in arms.get("Path", []):
+        body = re.sub(r"//[^\n]*", "", S.squash(a["body"]))
+        if re.search(r"ifis_type_param\(&first\.ident\)\{out\.insert\(ty\);return;?\}", body) and "path.segments.first()" in body:
+            return True
+    return False
+
+
+def underscore_walker_rule(syn, prop, rule="C14.R8"):
+    return type_walker_rule(syn, prop, rule, "replace_underscore", "attr/field.rs", "replaced by the field's own type", _infer_leaf,
+                            "`_` in `#[ts(as = \"..\")]` stands for the field's type: replace_underscore substitutes it at every depth (array, none-delimited group from a `$t:ty` fragment, paren, reference, slice, tuple, path arguments)")
+
+
+def type_param_walker_rule(syn, prop, rule="C16.R8"):
+    return type_walker_rule(syn, prop, rule, "used_type_params", "macros/src/lib.rs", "given its `TS` bound", _param_leaf,
+                            "the generated where-clause bounds every type parameter a field uses, at every depth (array, none-delimited group from a `$t:ty` fragment, paren, reference, slice, tuple, path arguments)")
+
+
+def object_merge_rule(syn, prop, rule):
+    """named() rewrites `{ a, } & { b, }` into `{ a, b, }` by a textual replace over the whole inline
+    string, which also contains the inlined types of the fields.  The rewrite is only sound where the
+    left object's last member is terminated by `,`; some emitted objects are not (`{ "tag": "V" }` of an
+    internally tagged enum, `{ [key in K]?: V }` of a map), so the pattern itself must demand the comma."""
+    r = Result(rule, "the `{ .. } & { .. }` simplification in named() only merges an object whose last member ends in `,` (the pattern is anchored on the comma), because unterminated object literals are emitted elsewhere and reach this text through inlined field types")
+    fn = syn.fn("types::named::named", "named.rs")
+    if fn is None:
+        r.fail(prop, "anchor-missing named()", "not found")
+        return r
+    # inventory of emitted objects `{ .. }` followed by an intersection whose last member has no comma
+    unterminated = []
+    for f in syn.fns_in(""):
+        if not f["file"].startswith("macros/src/types/") and not f["file"].startswith("ts-rs/src/lib.rs"):
+            continue
+        for e in f["events"]:
+            if e["kind"] != "macro":
+                continue
+            for lit in S.string_lits(e.get("tokens") or []):
+                u = S.unquote(lit)
+                if u is None:
+                    continue
+                for mm in re.finditer(r"(\S)\s*\}\}(\s*&|$)", u):
+                    if mm.group(1) not in ",}" and not u[:mm.start(1) + 1].endswith("{}") and "{{" in u:
+                        unterminated.append((f["qual"], u))
+    unterminated = sorted(set(unterminated))
+    pats = []
+    for e in templates(fn):
+        fl = S.flat(e["tokens"])
+        for i, t in enumerate(fl):
+            if t == "replace" and i >= 1 and fl[i - 1] == "." and i + 2 < len(fl) and fl[i + 1] == "(":
+                lits = [x for x in fl[i + 2:i + 6] if isinstance(x, str) and x.startswith('"')]
+                if len(lits) >= 2:
+                    pats.append((S.unquote(lits[0]), S.unquote(lits[1]), e["line"]))
+    if not pats:
+        r.inst(fn=fn["qual"], merges=0, unterminated_objects=len(unterminated), ok=True)
+    for pat, rep, line in pats:
+        if "} & {" not in pat:
+            continue
+        ok = (not unterminated) or (pat.lstrip().startswith(",") and rep.lstrip().startswith(","))
+        r.inst(fn=fn["qual"], pattern=pat, replacement=rep, unterminated_objects=[u for _, u in unterminated][:4], ok=ok)
+        if not ok:
+            r.fail(prop, "object-merge-unanchored named",
+                   "the simplification replaces %r by %r anywhere in the inline text; an inlined field type such as %r has no `,` before ` }`, so its last member is fused with the next object's first member (`{ \"t\": \"V\" a: number, }`)" % (pat, rep, unterminated[0][1]),
+                   fn["file"], line)
+    r.floor = 1
+    return r
+
+
+def paren_strip_rule(syn, prop, rule):
+    """`(A | B)` may lose its parentheses when it stands alone, `(A | B) & (C | D)` may not; both begin with
+    `(` and end with `)`, so a guard that looks only at the two ends cannot tell them apart."""
+    r = Result(rule, "wherever generated code strips an enclosing `( )` from assembled type text, the guard inspects the interior (is the first parenthesis closed by the last one?), not only the first and last character")
+    n = 0
+    for fn in syn.fns_in("macros/src/types/") + syn.fns_in("macros/src/lib.rs") + syn.fns_in("macros/src/utils.rs"):
+        for e in templates(fn):
+            fl = [t for t in S.flat(e["tokens"]) if isinstance(t, str)]
+            txt = " ".join(fl)
+            strips = ("strip_prefix ( '('" in txt and "strip_suffix ( ')'" in txt) or \
+                     (re.search(r"\[ 1 \.\. .{0,60}len \( \) - 1 \]", txt) is not None and ("'('" in txt or "'('" in txt))
+            if not strips:
+                continue
+            n += 1
+            interior = any(t in fl for t in ("chars", "char_indices", "bytes"))
+            r.inst(fn=fn["qual"], line=e["line"], strips_enclosing_parens=True, guard_inspects_interior=interior)
+            if not interior:
+                r.fail(prop, "paren-strip-ends-only %s" % fn["qual"].split("::")[-1],
+                       "the enclosing parentheses are removed whenever the text starts with `(` and ends with `)`; `(A | B) & (C | D)` (a struct flattening two enums, itself the only flattened field of another struct) becomes `A | B) & (C | D`",
+                       fn["file"], e["line"])
+    r.stats["strip_sites"] = n
+    r.floor = 0
     return r
